@@ -298,6 +298,11 @@ def cases(draw: Any, tier: str) -> dict:
             sec = sec.setdefault(k, {})
         sec[p[-1]] = copy.deepcopy(v)
     case["sets"] = sets
+    if layout == "component" and d.pct(8):
+        # no configuration file at all ("read all the given configuration files, if any"): everything comes from --set
+        case["files"] = []
+        case["sets"] = [{"path": ["component", "type"], "value": "mod:Root"}] + (
+            [{"path": ["component", "port"], "value": d.int(1, 9)}] if d.bool() else [])
     pool = names + ["nosuch"] if names else ["default", "nosuch"]
     case["flag"] = d.pick(pool) if d.pct(35) else None
     case["env"] = d.pick(pool) if d.pct(30) else None
